@@ -73,6 +73,28 @@ CHECKS = {
              "the theorem's shape computed from the Lean parse, with raising handlers.",
         note="handler does not re-enter the protocol object",
         design="7/C06"),
+    "C07": dict(
+        technique="Lean 4 proof: link automaton with a FIFO lock (holder, queue) over send/rx/expiry/cancel/close; "
+                  "lock invariant for all reachable states, stop-and-wait and FIFO step theorems; virtual-time "
+                  "differential against real send tasks",
+        text="Kernel-checked on the link model: waiters exist only while a holder exists (every reachable state); a "
+             "data frame is written only when the link was idle or the event ended the outstanding wait (accepted ACK "
+             "set the fresh event / expiry / cancellation of that sender) and that sender completes in the same step; "
+             "the ACK event can only be set by an accepted ACK frame; the oldest waiter is served, at most one write "
+             "per step. Tied by running real ZbossNcpProtocol.send tasks on a virtual-clock asyncio loop against the "
+             "model (1..4 senders, all ACK values, duplicates, data frames, expiry, cancellation; thorough: every "
+             "history to depth 6) and by a stop-and-wait monitor on the implementation's trace.",
+        note=Q + "; asyncio.Lock is FIFO",
+        design="7/C07"),
+    "C08": dict(
+        technique="Lean 4 proof: sequence number after any event = fold of ackStep over the accepted frames; range and "
+                  "stamping theorems; virtual-time differential, exhaustive depth-5 histories in thorough",
+        text="Kernel-checked: an accepted ACK carrying the current number steps n -> n%3+1, every other frame/event "
+             "leaves it, close resets to 0, reachable values are 0..3, 0 only before the first matching ACK; frames "
+             "written on an idle link are stamp(current) = flags|seq<<2 with a valid CRC8 (C05). Tied by the same "
+             "virtual-time harness with a sequence-automaton monitor on the implementation.",
+        note=Q,
+        design="7/C08"),
 }
 
 NOT_YET = "check not built yet in this revision of /verif (planned, see DESIGN.md section 7)"
